@@ -21,6 +21,11 @@ impl Tier {
     }
 }
 
+/// World-building steps that failed although they must succeed on a healthy tree (root prefixes). The builder truncates the root at
+/// the last good state — so the check's own oracles still get to judge the states that led there — and the run ends as a machinery
+/// failure (exit 2) unless one of them reported a violation: a check that could not build its worlds has not decided anything.
+pub static BUILD_FAILURES: std::sync::Mutex<Vec<String>> = std::sync::Mutex::new(Vec::new());
+
 pub struct Ctx {
     pub tier: Tier,
     pub seed: i64,
@@ -185,6 +190,13 @@ pub fn finish(ctx: &Ctx, mut r: Report, replay: Option<&dyn Fn(&Value) -> Result
         eprintln!("  detail: {}", v.detail);
         if exit == 0 {
             exit = 1;
+        }
+    }
+    if exit == 0 {
+        let bf = BUILD_FAILURES.lock().unwrap();
+        if !bf.is_empty() {
+            eprintln!("MACHINERY ERROR: {} world-building step(s) failed and no oracle explains it; first: {}", bf.len(), bf[0]);
+            exit = 2;
         }
     }
     for (g, n) in &r.guards {
